@@ -34,6 +34,10 @@ CLAIMED = {
          'For every input tree (any shape/size, attributes, text/tails, comments, PIs, namespaces mapping with or without xml, lxml in-scope nsmaps, document-level siblings) positions strictly increase along element -> namespace nodes -> attributes -> text/children/tails, parents precede children, positions are unique; the reserved gap is exactly element + namespace nodes + attributes. Order operators (is, <<, >>, union, intersect, except), string values and parent/children links are judged by the harness on real trees (not theorems); string-value order is a known finding pinned by an existing test.',
          'Trusted: Coq kernel; py2coq/gen_c02 translator; the builders\' deque loops are modelled by structural recursion (validated by correspondence on exhaustive shapes <=4 nodes and random trees for both libraries). No axioms.',
          'DESIGN.md §6 C02'),
+ 'C01': ('Coq proofs about the XDM path semantics (document order, no duplicates, step composition, canonicity, proximity positions) as an executable specification on the document-ordered node sequence; correspondence of node identities with root_token.select on 4 parsers x 2 tree libraries; libxml2 cross-check',
+         'PARTIAL. Proved for every document, path of the grammar (13 axes, name/kind tests, positional/last()/existence/not() predicates, nested relative paths) and context: results are strictly increasing in document order (each node once), E1/E2 selects exactly the nodes E2 selects from the nodes of E1, [n] on a reverse axis counts backwards. The axes are an executable XDM specification, not a separate model of the context iterators: they are validated against the implementation exhaustively on trees <= 4 nodes x every axis x every context node and on random trees/paths (and against libxml2, 0 disagreements); three iterator deviations on non-element context nodes are modelled (axis_nodes_impl) and listed as a known finding. Functions inside predicates are outside the model.',
+         'Trusted: Coq kernel; C01/Model.v as the reading of the XDM; harness tree construction and node identity mapping; lxml/libxml2 as cross-check only. No axioms.',
+         'DESIGN.md §6 C01'),
 }
 
 NOT_YET = {}
